@@ -225,6 +225,44 @@ def tx_iter(e):
     raise Unsupported('iterated expression')
 
 
+_EXC_TAGS = {'E1': 1, 'E2': 2}
+
+
+def _unld(n):
+    if isinstance(n, ast.Call) and _is_ag(n.func, 'ld') and len(n.args) == 1:
+        return n.args[0]
+    return n
+
+
+def with_tag(s):
+    """`with cm(<int>):` (either tree) -> the tag, else Unsupported."""
+    if len(s.items) == 1 and s.items[0].optional_vars is None:
+        c = s.items[0].context_expr
+        if isinstance(c, ast.Call) and isinstance(_unld(c.func), ast.Name) and _unld(c.func).id == 'cm' \
+                and len(c.args) == 1 and isinstance(c.args[0], ast.Constant) and isinstance(c.args[0].value, int):
+            return c.args[0].value
+    raise Unsupported('with item')
+
+
+def raise_tag(s):
+    """`raise E1()` / `raise E2()` (either tree; the call goes through converted_call) -> the tag."""
+    e = s.exc
+    if isinstance(e, ast.Call) and _is_ag(e.func, 'converted_call') and e.args:
+        callee = _unld(e.args[0])
+        if isinstance(callee, ast.Name) and callee.id in _EXC_TAGS:
+            return _EXC_TAGS[callee.id]
+    if isinstance(e, ast.Call) and isinstance(_unld(e.func), ast.Name) and _unld(e.func).id in _EXC_TAGS:
+        return _EXC_TAGS[_unld(e.func).id]
+    raise Unsupported('raise')
+
+
+def handler_tag(h):
+    t = _unld(h.type) if h.type is not None else None
+    if isinstance(t, ast.Name) and t.id in _EXC_TAGS and h.name is None:
+        return _EXC_TAGS[t.id]
+    raise Unsupported('except clause')
+
+
 # ------------------------------------------------------------------------------------------------
 # the tree ControlFlowTransformer receives  ->  annotated model program (astmt sexps)
 # ------------------------------------------------------------------------------------------------
@@ -246,7 +284,7 @@ def _is_return_tail(stmts, k):
     s = stmts[k]
     if not (isinstance(s, ast.Try) and k + 2 == len(stmts) and isinstance(stmts[k + 1], ast.Return)):
         return None
-    if len(s.body) != 2 or s.orelse or s.finalbody or len(s.handlers) != 1:
+    if len(s.body) != 2 or s.orelse or s.finalbody or len(s.handlers) != 1 or s.handlers[0].type is not None:
         return None
     a, b = s.body
     if not (isinstance(a, ast.Assign) and isinstance(b, ast.Assign) and isinstance(b.targets[0], ast.Name)):
@@ -315,6 +353,16 @@ class PreTree(object):
             extra = getattr(s, '_extra_test', None)
             return ['for', inf, s.target.id, tx_iter(s.iter), [tx_expr(extra)] if extra is not None else [],
                     self.conv_block(s.body, inf['in'])]
+        if isinstance(s, ast.With):
+            return ['with', inf, with_tag(s), self.conv_block(s.body, inf['out'])]
+        if isinstance(s, ast.Raise):
+            return ['raise', inf, raise_tag(s)]
+        if isinstance(s, ast.Try) and not s.orelse:
+            # continuation of body and handlers: the finally block's live-in (the try's live-out if there is none)
+            fi = self.live_in(s.finalbody[0]) if s.finalbody else inf['out']
+            return ['try', inf, self.conv_block(s.body, fi),
+                    [[handler_tag(h), self.conv_block(h.body, fi)] for h in s.handlers],
+                    self.conv_block(s.finalbody, inf['out'])]
         raise Unsupported('statement ' + type(s).__name__)
 
 
@@ -410,6 +458,13 @@ class FinalTree(object):
                     out.append(['assign', x, tx_expr(v)])
             elif isinstance(s, ast.Pass):
                 out.append(['pass'])
+            elif isinstance(s, ast.With):
+                out.append(['withT', with_tag(s), self.parse_block(s.body)])
+            elif isinstance(s, ast.Raise):
+                out.append(['raise', raise_tag(s)])
+            elif isinstance(s, ast.Try) and not s.orelse:
+                out.append(['tryT', self.parse_block(s.body), [[handler_tag(h), self.parse_block(h.body)] for h in s.handlers],
+                            self.parse_block(s.finalbody)])
             elif isinstance(s, ast.Expr) and isinstance(s.value, ast.Call) and (
                     _is_ag(s.value.func, 'if_stmt') or _is_ag(s.value.func, 'while_stmt') or _is_ag(s.value.func, 'for_stmt')):
                 out.append(self.parse_op(defs, s.value))
@@ -473,7 +528,7 @@ class FinalTree(object):
 # ------------------------------------------------------------------------------------------------
 # alignment: copy declared / undefined / nouts of the REAL generated code into the annotated program
 # ------------------------------------------------------------------------------------------------
-_SIMPLE = {'assign': 'assign', 'expr': 'expr', 'pass': 'pass', 'ret': 'ret'}
+_SIMPLE = {'assign': 'assign', 'expr': 'expr', 'pass': 'pass', 'ret': 'ret', 'raise': 'raise'}
 _COMPOUND = {'if': 'ifF', 'while': 'whileF', 'for': 'forF'}
 
 
@@ -485,6 +540,24 @@ def align(ablock, tblock):
             if j >= len(tblock) or tblock[j][0] != _SIMPLE[kind]:
                 raise ShapeMismatch('generated statement %r where %s was expected' % (tblock[j][0] if j < len(tblock) else None, kind))
             j += 1
+            continue
+        if kind in ('with', 'try'):
+            tk = 'withT' if kind == 'with' else 'tryT'
+            if j >= len(tblock) or tblock[j][0] != tk:
+                raise ShapeMismatch('generated statement %r where %s was expected' % (tblock[j][0] if j < len(tblock) else None, tk))
+            t = tblock[j]
+            j += 1
+            if kind == 'with':
+                if s[2] != t[1]:
+                    raise ShapeMismatch('with tag')
+                align(s[3], t[2])
+            else:
+                align(s[2], t[1])
+                if [h[0] for h in s[3]] != [h[0] for h in t[2]]:
+                    raise ShapeMismatch('handler tags')
+                for ha, ht in zip(s[3], t[2]):
+                    align(ha[1], ht[1])
+                align(s[4], t[3])
             continue
         undef = []
         while j < len(tblock) and tblock[j][0] == 'undef':
@@ -532,6 +605,12 @@ def ablock_sexp(b):
             out.append(['while', info_sexp(s[1]), s[2], ablock_sexp(s[3])])
         elif k == 'for':
             out.append(['for', info_sexp(s[1]), s[2], s[3], s[4], ablock_sexp(s[5])])
+        elif k == 'raise':
+            out.append(['raise', info_sexp(s[1]), s[2]])
+        elif k == 'with':
+            out.append(['with', info_sexp(s[1]), s[2], ablock_sexp(s[3])])
+        elif k == 'try':
+            out.append(['try', info_sexp(s[1]), ablock_sexp(s[2]), [[h[0], ablock_sexp(h[1])] for h in s[3]], ablock_sexp(s[4])])
     return out
 
 
@@ -554,6 +633,10 @@ def canon_undefs(tblock):
             out.append(['whileF', s[1], canon_undefs(s[2]), s[3]])
         elif s[0] == 'forF':
             out.append(['forF', s[1], s[2], s[3], canon_undefs(s[4]), s[5]])
+        elif s[0] == 'withT':
+            out.append(['withT', s[1], canon_undefs(s[2])])
+        elif s[0] == 'tryT':
+            out.append(['tryT', canon_undefs(s[1]), [[h[0], canon_undefs(h[1])] for h in s[2]], canon_undefs(s[3])])
         else:
             out.append(s)
     flush()
